@@ -6,6 +6,6 @@ Theorem allow_overrides_policy_mail : forall c s sz o,
   st s = READY -> sz <> SzBad ->
   (match sz with SzVal n => (n <= max_bytes c /\ n <= int32_max)%Z | _ => True end) ->
   step c s (L (Mail (MParsed sz (Some o)) Allow)) =
-  Ok {| st := MAIL; from := Some o; rcpts := rcpts s; helo := helo s |} (one 250) [].
+  Ok {| st := MAIL; from := Some o; rcpts := rcpts s; helo := helo s; tls := tls s |} (one 250) [].
 Proof. first [exact HooksThms.allow_overrides_policy_mail | intros; apply HooksThms.allow_overrides_policy_mail]. Qed.
 Print Assumptions allow_overrides_policy_mail.
